@@ -523,3 +523,49 @@ def a5(prog):
     if n < 10:
         raise Broken("only %d set_next call sites found (floor 10)" % n)
     return inst, findings
+
+
+# ops that evaluate a sub-expression on a copy and then continue with the OUTER stack
+OUTER_STACK_OPS = {"op_subx::next": "let/infix operand: yields the saved outer stack plus the kept values",
+                   "op_capture::next": "[E]: yields the pulled stack plus the captured sequence"}
+
+
+def a6(prog):
+    """the stack produced by the inner chain never becomes the yielded stack of let / infix operands / capture"""
+    inst, findings = [], []
+    for q in OUTER_STACK_OPS:
+        f = prog.func_opt(q)
+        if f is None:
+            raise Broken("anchor %s vanished" % q)
+        inner = {}
+        for x in walk(f["body"]):
+            vs = []
+            if x.get("k") == "decl":
+                vs = x["vars"]
+            elif x.get("k") in ("if", "while") and x.get("var"):
+                vs = [x["var"]]
+            for v in vs:
+                i = unwrap(v.get("init"))
+                if isinstance(i, dict) and i.get("k") == "call" and i.get("fn") == "next":
+                    ch = None
+                    from zw import field_chain
+                    ch = field_chain(i.get("obj"))
+                    if ch and ch[0] == "this" and ch[1][:1] != ["m_upstream"]:
+                        inner[v["id"]] = (v["n"], ".".join(ch[1]))
+        if not inner:
+            raise Broken("%s no longer binds the inner chain's result to a variable (unmodelled shape)" % q)
+        key = "A6:" + q
+        bad = []
+        nret = 0
+        for r in walk(f["body"]):
+            if r.get("k") == "return" and r.get("e") is not None and not is_null_stack_expr(r["e"]):
+                nret += 1
+                e = unwrap(r["e"])
+                if isinstance(e, dict) and e.get("k") == "ref" and e.get("id") in inner:
+                    bad.append((r["l"], inner[e["id"]]))
+        inst.append((key, {"inner_results": sorted(v[0] for v in inner.values()), "yielding_returns": nret}))
+        for loc, (vn, chain) in bad:
+            findings.append({"key": key, "where": loc,
+                             "msg": "%s returns `%s`, the stack produced by its sub-expression chain %s, instead of the outer stack: whatever the sub-expression did below the kept values (drop, swap, replace) leaks into the surrounding stack" % (q, vn, chain),
+                             "detail": None})
+    return inst, findings
